@@ -47,10 +47,10 @@ type recordedViolation struct {
 // Result is what a worker hands to the supervisor.
 type Result struct {
 	Shard        int                 `json:"shard"`
-	Cases        int64               `json:"cases"`        // cases executed by this worker
-	Enumerated   int64               `json:"enumerated"`   // cases seen by the enumeration (all shards see all)
-	Transitions  int64               `json:"transitions"`  // operations applied / executions
-	Validated    int64               `json:"validated"`    // reference-model comparisons against the implementation
+	Cases        int64               `json:"cases"`       // cases executed by this worker
+	Enumerated   int64               `json:"enumerated"`  // cases seen by the enumeration (all shards see all)
+	Transitions  int64               `json:"transitions"` // operations applied / executions
+	Validated    int64               `json:"validated"`   // reference-model comparisons against the implementation
 	States       map[string]struct{} `json:"-"`
 	StateList    []string            `json:"states"`
 	Outcomes     map[string]int64    `json:"outcomes"`
@@ -80,15 +80,16 @@ type Ctx struct {
 	replayGroup string
 	replayIndex int64
 
-	group    string
-	index    int64 // index within the group
-	res      *Result
-	journal  *os.File
-	deadline time.Time
-	maxViol  int
-	stateCap int
-	progress int64
-	always   bool
+	group      string
+	index      int64 // index within the group
+	res        *Result
+	journal    *os.File
+	deadline   time.Time
+	maxViol    int
+	stateCap   int
+	progress   int64
+	always     bool
+	replayDone atomic.Bool
 }
 
 // Progress is read by the worker watchdog.
@@ -222,10 +223,11 @@ func (c *Ctx) Case(descFn func() any, fn Check) {
 		return
 	}
 	if c.journal != nil {
-		var b [16]byte
+		var b [16 + 96]byte
 		binary.LittleEndian.PutUint64(b[:8], uint64(idx))
 		gh := sha256.Sum256([]byte(c.group))
 		copy(b[8:], gh[:8])
+		copy(b[16:], c.group) // group name, NUL padded
 		_, _ = c.journal.WriteAt(b[:], 0)
 	}
 	c.res.Cases++
